@@ -421,6 +421,15 @@ func genRenewalClient(vs *ssched.Rand, minTerm int) ClientSpec {
 		}
 		ops = append(ops, OpSpec{Cmd: 1, Key: renewalKeyLo + i, Lid: 1, Flag: protocol.LOCK_FLAG_UPDATE_WHEN_LOCKED, Expried: e1[i] + uint16(300+vs.Intn(3000)), EFlag: efAof0, Count: 0, DelayMs: d, Wait: true})
 	}
+	// some of the keys in the minute unit (drawn last, so that the requests above stay what they were): the
+	// record of such a hold carries whole minutes, and whoever compares it with the live hold has a minute's play
+	for i := 0; i < n; i++ {
+		if vs.Intn(3) == 0 {
+			m := uint16(minTerm/60 + 2 + vs.Intn(30))
+			ops[i].Expried, ops[i].EFlag = m, ops[i].EFlag|efMinute
+			ops[n+i].Expried, ops[n+i].EFlag = m+uint16(5+vs.Intn(60)), ops[n+i].EFlag|efMinute
+		}
+	}
 	return ClientSpec{Kind: "mem", StartMs: 30 + vs.Intn(300), Ops: ops}
 }
 
